@@ -14,7 +14,7 @@ class C16(Prop):
     shard = 60
     rule = ("barycentric: dimensions n = 2..12, transformer matrix, barycentric_to_cartesian / cartesian_to_barycentric (L1 none / scalar / per-row, centred and not) / "
             "barycentric_dim_reduction on 1-5 random dyadic rows; n-sphere: dimensions 2..12, points incl. origin, points on coordinate axes and planes (zero tails), "
-            "negative coordinates, both directions (cartesian_to_spherical, spherical_to_cartesian). non-trivial = dimension >= 4, or a point with a zero tail / "
+            "negative coordinates, 40 % full-mantissa doubles instead of multiples of 1/8, both directions (cartesian_to_spherical, spherical_to_cartesian). non-trivial = dimension >= 4, or a point with a zero tail / "
             "negative last coordinate, or a centred / L1-scaled barycentric conversion")
     assumptions = ["libm cos/sin (numpy) of the angles are supplied as data and only checked to lie on the unit circle with the right quadrant signs (trusted: numpy cos/sin)",
                    "np.linalg.inv is an oracle: its result is checked through the defining products (the returned barycentric rows map back to the input)",
@@ -49,13 +49,18 @@ class C16(Prop):
                     c["kind"] += "/L1-" + lk
                 elif kind == "reduce":
                     c["X"] = [[dyad(rng, 0, 8, 16) + (1 / 16 if j == 0 else 0) for j in range(dim)] for _ in range(nrows)]
+                # the same captures in other units (exact power-of-two rescaling): the chromatic reduction does not depend on them, b2c is linear
+                if kind in ("reduce", "b2c") and not c.get("int") and rng.random() < 0.3:
+                    c["bscale"] = rng.choice([2.0 ** -40, 2.0 ** -30, 2.0 ** 30]); c["kind"] += "/scaled"
                 cases.append(c)
             else:
                 dim = rng.choice(list(range(2, 13)))
                 shape = rng.choice(["generic", "generic", "axis", "plane", "origin", "neglast", "zerotail"])
-                x = [dyad(rng, -4, 4, 8) for _ in range(dim)]
+                arbx = rng.random() < 0.4
+                # full-mantissa doubles (not multiples of 1/8): sums of squares are then rounded, as for measured data
+                x = [rng.uniform(-4, 4) for _ in range(dim)] if arbx else [dyad(rng, -4, 4, 8) for _ in range(dim)]
                 if shape == "axis":
-                    k = rng.randrange(dim); x = [0.0] * dim; x[k] = rng.choice([-1, 1]) * dyad(rng, 1, 4, 8)
+                    k = rng.randrange(dim); x = [0.0] * dim; x[k] = rng.choice([-1, 1]) * (rng.uniform(1, 4) if arbx else dyad(rng, 1, 4, 8))
                 elif shape == "plane":
                     for k in rng.sample(range(dim), max(1, dim // 2)):
                         x[k] = 0.0
@@ -71,7 +76,7 @@ class C16(Prop):
                 # the same point in other length units: exact power-of-two rescaling of the input, undone on the returned radius
                 scale = rng.choice([1.0] * 5 + [2.0 ** -40, 2.0 ** -30, 2.0 ** 30])
                 c = {"fam": "sphere", "dir": direction, "x": x, "shape": shape, "scale": scale,
-                     "kind": "sphere/%s/n%d/%s%s" % (direction, dim, shape, "" if scale == 1.0 else "/scaled")}
+                     "kind": "sphere/%s/n%d/%s%s%s" % (direction, dim, shape, "" if scale == 1.0 else "/scaled", "/arb" if arbx else "")}
                 if direction == "s2c":
                     r = dyad(rng, 0, 8, 8)
                     ang = [dyad(rng, 0, 3, 64) for _ in range(dim - 2)] + [dyad(rng, 0, 6, 64)]
@@ -88,14 +93,17 @@ class C16(Prop):
             n = case["n"]
             A = barycentric_to_cartesian_transformer(n)
             out = {"A": A.tolist()}
-            if case["op"] == "b2c":
+            bsc = case.get("bscale", 1.0)
+            if case["op"] == "b2c" and bsc != 1.0 and not case["center"]:
+                out["Y"] = (dreye.barycentric_to_cartesian(np.array(case["X"], dtype=float) * bsc, center=False) / bsc).tolist()
+            elif case["op"] == "b2c":
                 out["Y"] = dreye.barycentric_to_cartesian(np.array(case["X"], dtype=(int if case.get("int") else float)), center=case["center"]).tolist()
             elif case["op"] == "c2b":
                 L1 = case["L1"]
                 L1a = None if L1 is None else (np.array(L1) if isinstance(L1, list) else L1)
                 out["Y"] = dreye.cartesian_to_barycentric(np.array(case["X"]), L1=L1a, centered=case["center"]).tolist()
             elif case["op"] == "reduce":
-                out["Y"] = barycentric_dim_reduction(np.array(case["X"]), center=case["center"]).tolist()
+                out["Y"] = barycentric_dim_reduction(np.array(case["X"]) * bsc, center=case["center"]).tolist()
             return out
         sc = case.get("scale", 1.0)
         if case["dir"] == "c2s":
